@@ -142,14 +142,15 @@ def check(ctx):
     ctx.tlc_mc('MC_Mesh', 'MC_Mesh_quick.cfg' if q else 'MC_Mesh.cfg',
                label='write histories of depth 2 on every mesh shape 2..4 (x 2..4), 1-2 variables (read-after-write through every access path on every '
                      'transition); interpolation laws on all 25 grids x all data over {0,1,3}; trapezium = nodal-weight form = iterated rule; exactness for '
-                     'every linear/bilinear integrand with coefficients in a 3(4)-element set on all 625 grid pairs; square_trapezium = trapezium of squares')
+                     'every linear/bilinear integrand with coefficients in %s on all 25 grids / 625 grid pairs; square_trapezium = trapezium of squares'
+                     % ('{-1,2}' if q else '{-2,0,1,3}'))
     if not q:
         ctx.tlc_mc('MC_Mesh', 'MC_Mesh_d3a.cfg', label='every history of 3 writes, all shapes 2..4 x 2..4, one variable')
         ctx.tlc_mc('MC_Mesh', 'MC_Mesh_d3b.cfg', label='every history of 3 writes, all shapes 2..3 x 2..3, two variables, all value vectors over {0,1,3}')
     # spec -> impl
     gens = [('Gen_Mesh_quick.cfg', 1)] if q else [('Gen_Mesh.cfg', 2), ('Gen_Mesh_d3.cfg', 1)]
     for cfg, isl in gens:
-        name = 'gen_' + cfg.replace('.cfg', '').lower()
+        name = cfg.replace('.cfg', '').lower()
         cases = ctx.tlc_cases('MC_Mesh', cfg, transform=make_transform(isl), name=name)
         ev = ctx.exec('mesh', cases, env=env)
         ctx.validate('Trace_Mesh', ev, cases, 'mesh', nontrivial=_nontrivial)
@@ -164,6 +165,9 @@ def check(ctx):
     _no_files_left(ctx)
     ctx.assumptions.append('nodal data are integers / dyadic numbers (numerators |D| <= 1000, scale 2^-sv, sv <= 3) so that every f64 result is exact; '
                            'magnitudes are bounded so that TLC recomputes every result in 32-bit integers')
+    ctx.notes.append('float guards are a-priori (not calibrated): interp_any <= 4 units of 8 eps max|data| (formula bound 2.5 eps max|data|), round trip <= 1 unit '
+                     'of 10^-p (correct rounding gives 0.5); worst values observed on the unchanged tree over seeds 1,2,3,7,1234 (quick) and 1,2,7,1234 (thorough): 1 unit each. '
+                     'TLC-generated grids contain cell widths 3 and 5: dyadic points in such cells are logged rounded to 2^-20 and compared with the model rational (interp_q).')
     ctx.assumptions.append('interpolation at arbitrary points: points at distance >= 1e-6 from every node (the 1e-7 snapping window is excluded as the property says)')
     return ctx.finish(
         rule='cases: (i) every TLC-enumerated behaviour of MC_Mesh (write histories; data/linear/bilinear cases on all small grids), (ii) per node count 2..12 '
